@@ -339,6 +339,29 @@ def ranges_validator_accepts_stored_form(m: Model, r: Report, rid: str) -> None:
             "from its META.json / run_meta entry)", loc=f.loc)
 
 
+def server_rules_index_guarded(m: Model, r: Report, rid: str) -> int:
+    """Every rule of the virtual ECU stands on its own (any subset of the behaviour switches may be enabled): a rule that reads request.pdu[k], k >= 1, tests the
+    length of the PDU itself instead of relying on an earlier rule having refused short requests."""
+    from sa.util import path_condition
+    srv = m.require_class("gallia.services.uds.server.UDSServer")
+    n = 0
+    for f in srv.methods.values():
+        for sub in ast.walk(f.node):
+            if not (isinstance(sub, ast.Subscript) and ast.unparse(sub.value) == "request.pdu" and not isinstance(sub.slice, ast.Slice)):
+                continue
+            k = m.try_fold(f.module, sub.slice)
+            if not isinstance(k, int) or k < 1:
+                continue
+            n += 1
+            guarded = any("len(request.pdu)" in ast.unparse(t) for t, _ in path_condition(f.node, sub))
+            # a guard statement earlier in the function: `if len(request.pdu) < k + 1: return ...`
+            early = any(isinstance(st, ast.If) and "len(request.pdu)" in ast.unparse(st.test) and st.lineno < sub.lineno and
+                        any(isinstance(x, (ast.Return, ast.Raise)) for x in st.body) for st in ast.walk(f.node))
+            r.check(guarded or early, rid, f"{f.qualname}#pdu[{k}]-guarded", f"request.pdu[{k}] is read without a length test in this rule: with the rule that refuses short requests "
+                    "switched off (or for a one-byte request such as `10`) it raises IndexError, the transports log it and stop serving", loc=f"{f.module.relpath}:{sub.lineno}")
+    return n
+
+
 def sub_function_split_rule(m: Model, r: Report, rid: str) -> None:
     """utils.sub_function_split(b) == (b & 0x7F, bit 7 of b set) for every byte value, decided by evaluating its return expression for 0..255."""
     from sa import miniterp
